@@ -169,7 +169,11 @@ def const_env(ctx):
                 cause = None
                 for s in re.findall(r"len\((\w+)\)", src):
                     cause = cause or cegen.nested_write_kind(p, s)
-                ctx.fail("fold:stale-" + (cause or "unknown"), f"firmware prints {fwv} where Python prints {pyv} (observation {i})", replay)
+                if real_sites != model_sites or lens(f.get("out", "none")) != fwv:
+                    # not what the model of the CURRENT folding rules predicts: not one of the recorded consequences of those rules
+                    ctx.fail("fold:not-as-modelled-" + (cause or "unknown"), f"firmware prints {fwv} where Python prints {pyv} (observation {i}); the modelled rules predict {lens(f.get('out', 'none'))}", replay)
+                else:
+                    ctx.fail("fold:stale-" + (cause or "unknown"), f"firmware prints {fwv} where Python prints {pyv} (observation {i})", replay)
 
 
 def shadowing(ctx):
